@@ -344,3 +344,5 @@ PLANS["C11"].proofs += [("contracts.registry", "RegistryFromJson"), ("contracts.
 # commensurable ufunc contracts (result of a rescaling operation is floating point; complex data are never cast to
 # a real dtype on the way)
 PLANS["C17"].proofs += _sel(lambda n: _NONTEMP(n) and _COMM(n) and (_QQ(n) or n.startswith(_REPR)) and "arctan2" not in n)
+for _pid in ("C11", "C18"):
+    PLANS[_pid].proofs += [("contracts.registry", "UnitCopyShallow")]      # Unit.copy: same unit, same registry object
